@@ -19,6 +19,12 @@ for text in ['data_a\n_x 1\n', "data_a _x 'q\n", 'data_a _x [1 {\'k\':\n', 'data
 WHOLE += [b'\xff\xfe' + 'data_a _x \ud800 y'.encode('utf-16-le', 'surrogatepass'), b'\xfe\xff' + 'data_a _x \udc00'.encode('utf-16-be', 'surrogatepass'),
           b'\xff\xfed\x00a\x00t\x00', b'\xff\xfe\x00']
 
+# names that grow when case-folded / normalised (two sharp s, a ligature, dotted capital I) in every kind of name, with and
+# without the version comment: the normaliser's buffer handling must terminate
+for magic in ('#\\#CIF_2.0\n', ''):
+    WHOLE.append((magic + 'data_\u00df\u00df\nsave_\ufb03\n_\u00df\u00df 1\nloop_ _\ufb03\ufb03 _\u0130\u00df\u00df\u00df\n1 2\nsave_\n_t {\'\u00df\u00df\':1}\n').encode('utf-8'))
+    WHOLE.append((magic + 'data_a\nloop_\n_\u00df\u00df\u00df\u00df\n_\ufb03\ufb04\n1 2\n').encode('utf-8'))
+
 
 def option_sets(tier):
     base = ['']
